@@ -261,7 +261,7 @@ package cose
 //@   ensures canon [C02, C07, C10]: err == nil ==> bytes(result) == canon(bytes(data)) && len(result) > 0
 //@   ensures fast_iff_minimal [C02, C07, C18]: err == nil ==> (head_minimal(bytes(data)) ==> result == data) && (!head_minimal(bytes(data)) ==> fresh(result))
 //@   ensures err_nil: err != nil ==> result == nil
-//@   modifies frame [C18]: nothing
+//@   modifies frame [C09, C18]: nothing
 
 // ===================================================================
 // headers.go: encoding of the two buckets (C02, C08, C09, C13)
@@ -300,7 +300,7 @@ package cose
 //@   ensures fun [C02, C04, C08, C09, C10]: err == nil ==> bytes(result) == ProtBytes(*h) && len(result) > 0
 //@   ensures fresh_or_raw [C18, C19]: err == nil && len(h.RawProtected) == 0 ==> fresh(result)
 //@   ensures err_nil: err != nil ==> result == nil
-//@   modifies frame [C18]: nothing
+//@   modifies frame [C09, C18]: nothing
 
 //@ func (*Headers).MarshalUnprotected
 //@   requires nonnil: h != nil
@@ -308,7 +308,7 @@ package cose
 //@   ensures raw_preferred [C09]: len(h.RawUnprotected) > 0 ==> err == nil && result == h.RawUnprotected
 //@   ensures fun [C08, C09]: err == nil ==> bytes(result) == UnprotBytes(*h) && len(result) > 0
 //@   ensures err_nil: err != nil ==> result == nil
-//@   modifies frame [C18]: nothing
+//@   modifies frame [C09, C18]: nothing
 
 // ===================================================================
 // sign1.go / sign.go: Sig_structure  (C02, C03, C04, C20)
@@ -325,14 +325,14 @@ package cose
 //@   ensures err_iff [C01, C07]: err == nil <==> old(tbsOK(m.Headers))
 //@   ensures fun [C01, C02, C03, C04, C07, C20]: err == nil ==> bytes(result) == old(Sig1(ProtBytes(m.Headers), external, m.Payload)) && fresh(result)
 //@   ensures err_nil: err != nil ==> result == nil
-//@   modifies frame [C18]: nothing
+//@   modifies frame [C09, C18]: nothing
 
 //@ func (*Signature).toBeSigned
 //@   requires nonnil: s != nil
 //@   ensures err_iff [C01, C07]: err == nil <==> old(tbsOK(s.Headers) && len(bodyProtected) > 0 && b_major(bytes(bodyProtected)) == 2 && bstr_wf(bytes(bodyProtected)))
 //@   ensures fun [C01, C02, C03, C04, C07, C11, C20]: err == nil ==> bytes(result) == old(SigN(bytes(bodyProtected), ProtBytes(s.Headers), external, payload)) && fresh(result)
 //@   ensures err_nil: err != nil ==> result == nil
-//@   modifies frame [C18]: nothing
+//@   modifies frame [C09, C18]: nothing
 
 // ===================================================================
 // shared vocabulary: labels as the properties see them (type-insensitive)
@@ -413,7 +413,7 @@ package cose
 //@   ensures complete [C01, C07]: m != nil && m.Payload != nil && len(m.Signature) > 0 && old(uniqueLabels(asmap(m.Headers.Protected)))
 //@         && old((algPresent(m.Headers.Protected) ==> algAgrees(m.Headers.Protected, verifier_alg(verifier))) && (algPresent(m.Headers.Protected) || len(external) > 0))
 //@         && old(tbsOK(m.Headers)) ==> vepoch() == old(vepoch()) + 1
-//@   modifies frame [C01, C06, C18]: nothing
+//@   modifies frame [C01, C06, C09, C18]: nothing
 
 //@ func (*Sign1Message).Sign
 //@   requires signer_nonnil: signer != nil
@@ -455,7 +455,7 @@ package cose
 //@   ensures complete [C01, C07]: s != nil && payload != nil && len(s.Signature) > 0 && bodyOK(protected) && bstr_wf(bytes(protected)) && old(uniqueLabels(asmap(s.Headers.Protected)))
 //@         && old((algPresent(s.Headers.Protected) ==> algAgrees(s.Headers.Protected, verifier_alg(verifier))) && (algPresent(s.Headers.Protected) || len(external) > 0))
 //@         && old(tbsOK(s.Headers)) ==> vepoch() == old(vepoch()) + 1
-//@   modifies frame [C01, C18]: nothing
+//@   modifies frame [C01, C09, C18]: nothing
 
 //@ func (*Signature).Sign
 //@   requires signer_nonnil: signer != nil
@@ -492,7 +492,7 @@ package cose
 //@         && (forall i Int :: 0 <= i && i < len(m.Signatures) ==> sigVerified(m, i, verifiers[i], external))
 //@   ensures count [C01, C02, C04, C06, C11]: m != nil && len(m.Signatures) != len(verifiers) ==> result != nil && vepoch() == old(vepoch())
 //@   ensures precheck [C01, C02, C04, C06, C11]: (m == nil || m.Payload == nil || len(m.Signatures) == 0) ==> result != nil && vepoch() == old(vepoch())
-//@   modifies frame [C01, C02, C04, C06, C18]: nothing
+//@   modifies frame [C01, C02, C04, C06, C09, C18]: nothing
 //@   loop 1 invariant bounds [C01, C02, C04, C06, C11]: 0 <= idx && idx <= len(m.Signatures) && len(m.Signatures) == len(verifiers) && m.Payload != nil
 //@   loop 1 invariant counted [C01, C02, C04, C06, C11]: vepoch() == old(vepoch()) + idx
 //@   loop 1 invariant prefix_ok [C01, C02, C04, C06, C11]: forall j Int :: 0 <= j && j < idx ==> sigVerified(m, j, verifiers[j], external)
@@ -537,7 +537,7 @@ package cose
 //@   ensures cross [C13]: result2 == nil ==> CrossIV(h.Protected, h.Unprotected)
 //@   ensures raw_preferred [C09]: result2 == nil ==> (len(h.RawProtected) > 0 ==> result0 == h.RawProtected) && (len(h.RawUnprotected) > 0 ==> result1 == h.RawUnprotected)
 //@   ensures err_nil: result2 != nil ==> result0 == nil && result1 == nil
-//@   modifies frame [C18]: nothing
+//@   modifies frame [C09, C18]: nothing
 
 // ===================================================================
 // sign1.go: encoding  (C08, C09, C20)
@@ -766,13 +766,13 @@ package cose
 // ===================================================================
 
 //@ func init#1
-//@   ensures enc_config [C05, C07, C08]: encMode != nil && encopts(encMode).Sort == 2 && encopts(encMode).IndefLength == 1
+//@   ensures enc_config [C01, C05, C07, C08, C09]: encMode != nil && encopts(encMode).Sort == 2 && encopts(encMode).IndefLength == 1
 //@         && encopts(encMode).TagsMd == 0 && encopts(encMode).ShortestFloat == 0 && encopts(encMode).NaNConvert == 0 && encopts(encMode).InfConvert == 0
 //@         && encopts(encMode).BigIntConvert == 0 && encopts(encMode).Time == 0 && encopts(encMode).TimeTag == 0 && encopts(encMode).NilContainers == 0
-//@   ensures dec_config [C05, C07]: decMode != nil && decopts(decMode).DupMapKey == 1 && decopts(decMode).IndefLength == 1 && decopts(decMode).IntDec == 1
+//@   ensures dec_config [C01, C05, C07, C08, C09]: decMode != nil && decopts(decMode).DupMapKey == 1 && decopts(decMode).IndefLength == 1 && decopts(decMode).IntDec == 1
 //@         && decopts(decMode).TagsMd == 0 && decopts(decMode).MaxNestedLevels == 0 && decopts(decMode).MaxArrayElements == 0 && decopts(decMode).MaxMapPairs == 0
 //@         && decopts(decMode).TimeTag == 0 && decopts(decMode).MapKeyByteString == 0 && decopts(decMode).ExtraReturnErrors == 0 && decopts(decMode).UTF8 == 0 && decopts(decMode).DefaultMapType == nil
-//@   ensures dec_tf_config [C05, C07]: decModeWithTagsForbidden != nil && decopts(decModeWithTagsForbidden).TagsMd == 1
+//@   ensures dec_tf_config [C01, C05, C07, C08, C09]: decModeWithTagsForbidden != nil && decopts(decModeWithTagsForbidden).TagsMd == 1
 //@         && decopts(decModeWithTagsForbidden).DupMapKey == 1 && decopts(decModeWithTagsForbidden).IndefLength == 1 && decopts(decModeWithTagsForbidden).IntDec == 1
 //@         && decopts(decModeWithTagsForbidden).MaxNestedLevels == 0 && decopts(decModeWithTagsForbidden).MaxArrayElements == 0 && decopts(decModeWithTagsForbidden).MaxMapPairs == 0
 //@         && decopts(decModeWithTagsForbidden).TimeTag == 0 && decopts(decModeWithTagsForbidden).MapKeyByteString == 0 && decopts(decModeWithTagsForbidden).ExtraReturnErrors == 0
@@ -806,6 +806,10 @@ package cose
 //@   modifies frame [C01, C18]: nothing
 //@   loop 1 invariant bounds: 0 <= idx && idx <= len(m.Signatures) && len(signatures) == idx && cap(signatures) >= len(m.Signatures) && fresh(signatures)
 //@   loop 1 invariant prefix_nonempty [C01, C11, C20]: forall j Int :: 0 <= j && j < idx ==> m.Signatures[j] != nil && len(m.Signatures[j].Signature) > 0
+//@   callsite body [C01, C08, C09] EncMode.Marshal#1: arg1 is cbor.Tag && arg1.(cbor.Tag).Number == 98 && arg1.(cbor.Tag).Content is signMessage
+//@         && arg1.(cbor.Tag).Content.(signMessage).Payload == m.Payload
+//@         && bytes(arg1.(cbor.Tag).Content.(signMessage).Protected) == ProtBytes(m.Headers) && bytes(arg1.(cbor.Tag).Content.(signMessage).Unprotected) == UnprotBytes(m.Headers)
+//@         && len(arg1.(cbor.Tag).Content.(signMessage).Signatures) == len(m.Signatures)
 
 //@ func (*SignMessage).UnmarshalCBOR
 //@   ensures accept [C01, C02, C03, C05, C07, C09, C11, C19]: err == nil ==> m != nil && len(data) >= 3 && bat(bytes(data), 0) == 216 && bat(bytes(data), 1) == 98 && bat(bytes(data), 2) == 132
@@ -893,7 +897,7 @@ package cose
 //@   ensures refuse_other [C03, C07, C10]: !(target is Sign1Message || target is *Sign1Message || target is SignMessage || target is *SignMessage
 //@         || target is Signature || target is *Signature || target is Countersignature || target is *Countersignature) ==> err != nil
 //@   ensures out [C03, C07, C10, C20]: (err == nil ==> fresh(result) && len(result) > 0) && (err != nil ==> result == nil)
-//@   modifies frame [C03, C07, C18]: nothing
+//@   modifies frame [C03, C07, C09, C18]: nothing
 
 // the value that reaches the signer / verifier for parent `parent` (any of the eight supported spellings)
 //@ spec parentOK(parent any) Bool = (parent is *Sign1Message ==> parent.(*Sign1Message) != nil) && (parent is *SignMessage ==> parent.(*SignMessage) != nil)
@@ -918,7 +922,7 @@ package cose
 //@         && result == verifier_verify(verifier, old(tbsFor(false, parent, ProtBytes(s.Headers), external)), old(bytes(s.Signature)))
 //@   ensures gate [C01, C04]: s != nil && vepoch() != old(vepoch()) ==> (algPresent(s.Headers.Protected) ==> algAgrees(s.Headers.Protected, verifier_alg(verifier))) && (algPresent(s.Headers.Protected) || len(external) > 0)
 //@   ensures precheck [C01, C03, C10]: (s == nil || len(s.Signature) == 0 || !isParent(parent)) ==> result != nil && vepoch() == old(vepoch())
-//@   modifies frame [C01, C18]: nothing
+//@   modifies frame [C01, C09, C18]: nothing
 
 //@ func (*Countersignature).Sign
 //@   requires ok: signer != nil && parentOK(parent)
@@ -949,7 +953,7 @@ package cose
 //@   ensures verbatim [C01, C03, C10, C20]: vepoch() == old(vepoch()) + 1 ==> isParent(parent)
 //@         && result == verifier_verify(verifier, old(tbsFor(true, parent, byte1(64), external)), old(bytes(signature)))
 //@   ensures refuse [C01, C10]: !isParent(parent) ==> result != nil && vepoch() == old(vepoch())
-//@   modifies frame [C01, C18]: nothing
+//@   modifies frame [C01, C09, C18]: nothing
 
 // ===================================================================
 // hash_envelope.go  (C12)
@@ -1292,7 +1296,7 @@ package cose
 //@   requires ok: s != nil && parentOK(target)
 //@   ensures out [C10, C20]: (err == nil ==> fresh(result) && len(result) > 0 && isParent(target)) && (err != nil ==> result == nil)
 //@   ensures fun [C03, C07, C10]: err == nil ==> bytes(result) == old(tbsFor(false, target, ProtBytes(s.Headers), external))
-//@   modifies frame [C18]: nothing
+//@   modifies frame [C09, C18]: nothing
 
 //@ func (*Key).ParamBytes
 //@   requires ok: k != nil && any_hashable(label)
